@@ -1,0 +1,46 @@
+//go:build verif
+
+// Contracts for package csv (comment-only; read by /verif's VC generator).
+package csv
+
+//@ func (c *CsvQuoteState) EncodeString
+//@   requires scalar(quoteSymbol)
+//@   ensures[C14] rlen(result) >= 2 && result[0] == quoteSymbol && result[rlen(result) - 1] == quoteSymbol
+//@   assigns nothing
+//@   nopanic
+//
+// "decoding never fails on any input": no precondition at all
+//@ func (c *CsvQuoteState) DecodeString
+//@   ensures[C14] !quoted(value, quoteSymbol) ==> result == value
+//@   assigns nothing
+//@   nopanic
+//
+//@ func (c *CsvQuoteState) NextToken
+//@   requires c != nil && isScanner(scanner) && sc(scanner).position + 1 < len(sc(scanner).content)
+//@   requires forall i int :: 0 <= i && i < len(sc(scanner).content) ==> scalar(sc(scanner).content[i])
+//@   ensures[C04,C12] result != nil && isScanner(scanner) && sc(scanner).content == old(sc(scanner).content)
+//@   ensures[C04] spans(result.value, scanner, old(cur(scanner)), cur(scanner))
+//@   ensures[C12] result.line == L(seq(sc(scanner).content), old(cur(scanner))) && result.column == C(seq(sc(scanner).content), old(cur(scanner)))
+//@   assigns sc(scanner).position, sc(scanner).line, sc(scanner).column
+//@   nopanic
+//@   ensures[C09,C14] result.typ == tokenizers.Quoted
+//@   loop 0
+//@     invariant isScanner(scanner) && sc(scanner).content == old(sc(scanner).content)
+//@     invariant old(sc(scanner).position) + 1 <= sc(scanner).position && sc(scanner).position <= len(sc(scanner).content)
+//@     invariant nextSymbol == chr(seq(sc(scanner).content), sc(scanner).position)
+//@     invariant old(sc(scanner).position) + 2 <= sc(scanner).position + (nextSymbol == -1 ? 1 : 0)
+//@     invariant firstSymbol == sc(scanner).content[old(cur(scanner))]
+//@     invariant spans(builder(tokenValue), scanner, old(cur(scanner)), min(sc(scanner).position, len(sc(scanner).content)))
+//@     decreases len(sc(scanner).content) - sc(scanner).position
+//
+// any character other than CR / LF is one Symbol token; line ends go to the symbol table (LF, CR, CRLF, LFCR)
+//@ func (c *CsvSymbolState) NextToken
+//@   requires c.GenericSymbolState != nil && c.GenericSymbolState.symbols != nil
+//@   requires c != nil && isScanner(scanner) && sc(scanner).position + 1 < len(sc(scanner).content)
+//@   requires forall i int :: 0 <= i && i < len(sc(scanner).content) ==> scalar(sc(scanner).content[i])
+//@   ensures[C04,C12] result != nil && isScanner(scanner) && sc(scanner).content == old(sc(scanner).content)
+//@   ensures[C04] spans(result.value, scanner, old(cur(scanner)), cur(scanner))
+//@   ensures[C12] result.line == L(seq(sc(scanner).content), old(cur(scanner))) && result.column == C(seq(sc(scanner).content), old(cur(scanner)))
+//@   assigns sc(scanner).position, sc(scanner).line, sc(scanner).column
+//@   nopanic
+//@   ensures[C09] !iseol(sc(scanner).content[old(cur(scanner))]) ==> result.typ == tokenizers.Symbol && cur(scanner) == old(cur(scanner)) + 1
